@@ -437,6 +437,8 @@ def main_run(mod, tier: str, seed: int, nshards: int | None, only: str | None) -
             if only:
                 cmd += ["--sub", only]
             env = dict(os.environ, VERIF_SEED=str(seed))
+            if hasattr(mod, "shard_env"):
+                env.update(mod.shard_env(i, nshards))
             log = open(os.path.join(work, f"shard-{i}.log"), "w")
             procs.append((i, out, subprocess.Popen(cmd, env=env, stdout=log, stderr=subprocess.STDOUT, cwd=VERIF_DIR), log))
         for i, out, p, log in procs:
